@@ -6,7 +6,7 @@ for patch in "$@"; do
   if ! git -C "$wt" apply "$patch" 2>/dev/null; then echo "$patch: PATCH DOES NOT APPLY"; git -C /repo worktree remove --force "$wt"; continue; fi
   res=""
   for p in C01 C02 C03 C04 C05 C06 C07 C08 C09 C10 C11 C12 C13 C14 C15 C16 C17 C18 C19 C20; do
-    out=$(cd /verif && JASMSA_REPO="$wt" ./check $p 2>&1); rc=$?
+    out=$(cd /verif && JASMSA_REPO="$wt" ./check $p ${BENIGN_TIER:+--tier $BENIGN_TIER} 2>&1); rc=$?
     if [ $rc -ne 0 ]; then res="$res\n   $p rc=$rc: $(echo "$out" | grep -E 'FAIL|ANALYSIS-ERROR' | head -2 | cut -c1-${BENIGN_COLS:-230})"; fi
   done
   if [ -z "$res" ]; then echo "$patch: silent"; else echo -e "$patch: ALARM$res"; fi
